@@ -201,6 +201,10 @@ def generate(run_seed, prop, tier="quick"):
     if faults_enabled["foreign"] and rng.random() < 0.4:
         add_client("foreign", None, [{"op": "foreign_rng", "seed": rng.randrange(10 ** 6)}
                                      for _ in range(rng.randint(1, 3))])
+    if faults_enabled["foreign"] and rng.random() < 0.4:
+        add_client("helper", None, [{"op": "helper_call", "how": rng.choice(["compute_mass_plain", "rebuild_h_plain", "both"]),
+                                     "smiles": rng.choice(["CCO", "c1ccccc1C", "CC(=O)[O-]", "C#N"])}
+                                    for _ in range(rng.randint(1, 2))])
     # --- schedule -------------------------------------------------------------
     style = rng.choice(["uniform", "bursty", "roundrobin", "starved", "serial"])
     remaining = {c["id"]: len(c["script"]) for c in clients}
@@ -476,6 +480,18 @@ class _Run:
             res = MoleculeResolver.from_string(op["text"])
             coarse, fine = res.resolve_all()
             return [digest(coarse), digest(fine)]
+        if kind == "helper_call":
+            # another part of the host program uses the package's public helpers on plain pysmiles graphs
+            import pysmiles
+            from cgsmiles.pysmiles_utils import rebuild_h_atoms, compute_mass
+            out = []
+            if op["how"] in ("compute_mass_plain", "both"):
+                out.append(repr(round(compute_mass(pysmiles.read_smiles(op["smiles"])), 4)))
+            if op["how"] in ("rebuild_h_plain", "both"):
+                graph = pysmiles.read_smiles(op["smiles"])
+                rebuild_h_atoms(graph)
+                out.append(str(len(graph)))
+            return [sha(jdump(out))]
         if kind == "foreign_rng":
             import random
             import numpy as np
@@ -790,6 +806,8 @@ def execute(scenario):
             stats["fault:grow:fired"] = stats.get("fault:grow:fired", 0) + 1
         if e["op"] == "foreign_rng":
             stats["fault:foreign-rng:fired"] = stats.get("fault:foreign-rng:fired", 0) + 1
+        if e["op"] == "helper_call":
+            stats["fault:foreign-helper-call:fired"] = stats.get("fault:foreign-helper-call:fired", 0) + 1
         if e["op"] == "iter_close":
             stats["fault:abandon:fired"] = stats.get("fault:abandon:fired", 0) + 1
         if e["op"] == "edit_lib":
@@ -876,7 +894,7 @@ def shrink_candidates(scenario):
             new["schedule"] = _reschedule(new)
             yield new
         for k, op in enumerate(script):
-            if op["op"] in ("grow", "sampler", "write_frags", "write_full", "malformed", "foreign_rng", "edit_lib", "scribble") and len(script) > 1:
+            if op["op"] in ("grow", "sampler", "write_frags", "write_full", "malformed", "foreign_rng", "helper_call", "edit_lib", "scribble") and len(script) > 1:
                 new = copy.deepcopy(sc)
                 del new["clients"][client["id"]]["script"][k]
                 new["schedule"] = _reschedule(new)
